@@ -27,7 +27,8 @@ RULE = (
 )
 ASSUMPTIONS = [
     "well-formed = reserved names unique up to case, no feature named like a reserved column, rectangular table",
-    "feature values are finite numbers or missing; missing cells are empty fields in text and nulls in Parquet",
+    "feature values are finite numbers or missing; missing cells are nulls in Parquet and, in text, empty fields or one of the "
+    "usual spellings a pandas-based reader recognises (NaN, nan, NA, N/A, null, NULL, #N/A)",
 ]
 
 REQUIRED = ["SpecId", "Label", "ScanNr", "Peptide", "Proteins"]
@@ -84,6 +85,8 @@ def _case(draw, tier):
         "fmt": draw(st.sampled_from(["tsv", "tsv", "parquet"])),
         "negative": draw(st.sampled_from(["none"] * 8 + ["missing", "badlabel"])),
         "neg_pick": draw(st.integers(0, 4)),
+        "neg_val": draw(st.integers(0, 9)),
+        "na_token": draw(st.sampled_from(["", "", "", "NaN", "nan", "NA", "N/A", "null", "NULL", "#N/A"])),
     }
 
 
@@ -153,7 +156,7 @@ def _write(case, header, cols, path, label_override=None):
             for h in header:
                 v = (cols[h] if label_override is None or h != label_override[0] else label_override[1])[r]
                 if v is None:
-                    row.append("")
+                    row.append(case.get("na_token", ""))
                 elif isinstance(v, bool):
                     row.append("True" if v else "False")
                 elif isinstance(v, float):
@@ -190,7 +193,8 @@ def check(case):
             victim = names[REQUIRED[case["neg_pick"] % len(REQUIRED)]]
             hdr = [h for h in header if h != victim]
         elif neg == "badlabel":
-            bad = [2 if (i == case["neg_pick"] % n) else (1 if t else -1) for i, t in enumerate(is_target)]
+            badval = [2, -2, 3, 255, 256, 257, -255, 65537, 100, -129][case.get("neg_val", 0) % 10]
+            bad = [badval if (i == case["neg_pick"] % n) else (1 if t else -1) for i, t in enumerate(is_target)]
             label_override = (names["Label"], bad)
         _write(case, hdr, cols, path, label_override)
         with config_inject.chunk_sizes(colscan=case["colscan"], rowscan=case["rowscan"]):
@@ -261,6 +265,8 @@ def check(case):
         classes.append("row-chunks")
     if any(f["kind"] == "int" and f["name"] in nan_cols for f in case["feats"]):
         classes.append("nan-in-int-column")
+    if nan_cols and case.get("na_token") and case["fmt"] == "tsv":
+        classes.append("na-token:" + case["na_token"])
     if any(h != h2 for h, h2 in zip(REQUIRED, [names[r] for r in REQUIRED])):
         classes.append("recased")
     return {"nontrivial": bool(tricky or nan_cols or rowchunks), "classes": classes, "counters": {"columns": len(header)}}
